@@ -7,6 +7,16 @@ csv / tsv / xlsx / ods
     saved with ``glotaran.io.save_parameters`` into a fresh temporary directory, loaded with
     ``glotaran.io.load_parameters`` and compared with the harness' own comparator; the loaded set is saved
     and loaded again (3 cycles in total) and must stay within k * RTOL of the original.
+history
+    The part of the quantifier that a fresh directory per save cannot reach: what a path held *before* the save,
+    what happened to other paths in between, and how often a file is loaded.  A case holds 2-3 parameter sets
+    (independent draws, reduced versions with fewer rows, edited versions with other cells) and a list of steps
+    ``save`` / ``load`` / ``resave`` over 1-3 paths of one directory (``vlib.gen.c16_params.histories``); the
+    interpreter ``prop_history`` keeps the reference model "a path holds the set last saved to it" and decides
+    every load (and every file once more at the end) with the comparator of the round-trip sub-checks.  Clauses
+    carry ``.fresh`` / ``.overwrite`` (the file did not / did exist before the save that is being read back);
+    ``history.<fmt>.overwrite.stale_rows`` = rows of the former content of the path are loaded in addition;
+    ``history.<fmt>.overwrite_protection`` = no ``FileExistsError`` for an existing file without ``allow_overwrite``.
 spec
     A generated specification (list / nested dict, default option blocks, automatic numbering,
     scientific-notation strings, expressions) is loaded through ``Parameters.from_list`` /
@@ -200,12 +210,9 @@ def model_of_case(case) -> list[dict]:
     return out
 
 
-def prop_roundtrip(case):
-    from glotaran.io import load_parameters
-    from glotaran.io import save_parameters
-
+def prepare_set(case) -> dict:
+    """Build one generated parameter set and everything the oracle needs to know about it (from the case alone)."""
     fmt = case["fmt"]
-    pfx = f"{case['sub']}.{fmt}" if case.get("sub") else fmt
     original, trees = build_parameters(case)
     for label, value in case.get("stale", []):
         # a referenced parameter changes after construction: the value column of the file then holds an
@@ -220,11 +227,7 @@ def prop_roundtrip(case):
         assert all(same_exact(s[f], m[f]) for f in FLOAT_FIELDS), f"generator: {s} {m}"
 
     labels = [p["label"] for p in case["params"]]
-    numeric_labels = all(numeric_looking(x) for x in labels)
-    na_label = any(x in G.NA_TOKEN_LABELS for x in labels)
     exprs = [p["expression"] for p in case["params"] if p["expression"] is not None]
-    numeric_exprs = bool(exprs) and all(G.is_numeric_literal(t) for t in exprs)
-
     save_kwargs, load_kwargs = {}, {}
     if fmt == "csv" and case.get("sep", ",") != ",":
         save_kwargs["sep"] = load_kwargs["sep"] = case["sep"]
@@ -232,6 +235,25 @@ def prop_roundtrip(case):
         save_kwargs["replace_infinfinity"] = False
     if case.get("explicit_format"):
         save_kwargs["format_name"] = load_kwargs["format_name"] = fmt
+    return {
+        "original": original, "trees": trees, "snap0": snap0, "labels": labels, "exprs": exprs,
+        "numeric_labels": all(numeric_looking(x) for x in labels),
+        "na_label": any(x in G.NA_TOKEN_LABELS for x in labels),
+        "numeric_exprs": bool(exprs) and all(G.is_numeric_literal(t) for t in exprs),
+        "save_kwargs": save_kwargs, "load_kwargs": load_kwargs,
+    }
+
+
+def prop_roundtrip(case):
+    from glotaran.io import load_parameters
+    from glotaran.io import save_parameters
+
+    fmt = case["fmt"]
+    pfx = f"{case['sub']}.{fmt}" if case.get("sub") else fmt
+    prep = prepare_set(case)
+    original, trees, snap0, labels, exprs = prep["original"], prep["trees"], prep["snap0"], prep["labels"], prep["exprs"]
+    numeric_labels, na_label, numeric_exprs = prep["numeric_labels"], prep["na_label"], prep["numeric_exprs"]
+    save_kwargs, load_kwargs = prep["save_kwargs"], prep["load_kwargs"]
 
     current = original
     exact = True
@@ -267,6 +289,103 @@ def prop_roundtrip(case):
         if cond:
             tags.append(tag)
     return {"nontrivial": bool(nested or any_numeric or empty_col or exprs or flags), "tags": tags}
+
+
+# ------------------------------------------------------------------------------------------
+# histories: the same paths written and read several times
+
+
+def prop_history(case):
+    """Reference model of a directory of parameter files: a path holds the set that was last saved to it.
+
+    "Saving any valid parameter set ... and loading it again yields equal parameters" does not depend on what the
+    path held before, on what was saved elsewhere in between, or on how often the path was loaded: after every step
+    list, every load of a path must give the set last saved there (within k * RTOL after k save-load generations).
+    ``allow_overwrite=False`` on an existing file is documented to raise ``FileExistsError``; the file then still
+    holds the former set.  Inapplicable steps (load of a path never written, resave without a loaded object) are skipped.
+    """
+    from glotaran.io import load_parameters
+    from glotaran.io import save_parameters
+
+    fmt = case["fmt"]
+    base = f"{case['sub']}.{fmt}"
+    preps = [prepare_set(c) for c in case["sets"]]
+    files: dict[int, dict] = {}  # path index -> what the file must contain
+    objects: dict[int, dict] = {}  # path index -> object last loaded from it and what it is
+    seen = set()
+
+    def load(d, j):
+        entry = files[j]
+        prep = preps[entry["set"]]
+        pfx = f"{base}.overwrite" if entry["former"] else f"{base}.fresh"
+        path = os.path.join(d, case["paths"][j])
+        with expect_ok(f"{pfx}.labels_numeric_column" if prep["numeric_labels"] else f"{pfx}.load"):
+            loaded = load_parameters(path, **prep["load_kwargs"])
+        got_labels = [p.label for p in loaded.all()]
+        extra = [x for x in got_labels if x not in prep["labels"]]
+        if extra and all(x in entry["former"] for x in extra):
+            check(False, f"{pfx}.stale_rows", lambda: f"{case['paths'][j]}: saved labels {prep['labels']} over a file that held {sorted(entry['former'])}; "
+                                                     f"loaded labels {got_labels}: rows of the former content survive")
+        got = compare(pfx, prep["snap0"], prep["trees"], loaded, entry["k"], RTOL, prep["numeric_labels"], prep["numeric_exprs"])
+        ex = exact_equal(prep["snap0"], got)
+        with expect_ok(f"{pfx}.eq_call"):
+            eq1, eq2 = (loaded == prep["original"]), (prep["original"] == loaded)
+        check(bool(eq1) == ex and bool(eq2) == ex, f"{pfx}.eq_consistent", lambda: f"loaded == original is {eq1}/{eq2}, exact attribute comparison says {ex}")
+        entry["loads"] += 1
+        if entry["former"]:
+            seen.add("load-after-overwrite")
+        if entry["loads"] > 1:
+            seen.add("second-load-of-same-file")
+        return loaded
+
+    def save(d, obj, set_index, k, j, overwrite):
+        prep = preps[set_index]
+        path = os.path.join(d, case["paths"][j])
+        os.makedirs(os.path.dirname(path), exist_ok=True)
+        if j in files and not overwrite:
+            try:
+                save_parameters(obj, path, **prep["save_kwargs"])
+            except FileExistsError:
+                seen.add("refused-overwrite")
+                return
+            check(False, f"{base}.overwrite_protection", lambda: f"{case['paths'][j]} exists, allow_overwrite=False: no FileExistsError")
+        kwargs = dict(prep["save_kwargs"], allow_overwrite=True) if overwrite else prep["save_kwargs"]
+        with expect_ok(f"{base}.overwrite.save" if j in files else f"{base}.fresh.save"):
+            save_parameters(obj, path, **kwargs)
+        check(os.path.isfile(path) and os.path.getsize(path) > 0, f"{base}.save", "no file written")
+        former = set()
+        if j in files:
+            old = files[j]
+            former = old["former"] | set(preps[old["set"]]["labels"])
+            n_old, n_new = len(preps[old["set"]]["labels"]), len(prep["labels"])
+            seen.add("overwrite-smaller" if n_new < n_old else "overwrite-larger" if n_new > n_old else "overwrite-same-size")
+            if old["set"] == set_index:
+                seen.add("overwrite-same-set")
+        files[j] = {"set": set_index, "k": k, "former": former, "loads": 0}
+
+    with tempfile.TemporaryDirectory(prefix="verif_c16_") as d:
+        for step in case["steps"]:
+            if step["op"] == "save":
+                save(d, preps[step["set"]]["original"], step["set"], 1, step["path"], step["overwrite"])
+            elif step["op"] == "load":
+                j = step["path"]
+                if j in files:
+                    objects[j] = {"object": load(d, j), "set": files[j]["set"], "k": files[j]["k"]}
+            elif step["op"] == "resave":
+                if step["from"] in objects:
+                    o = objects[step["from"]]
+                    if step["from"] == step["path"]:
+                        seen.add("resave-to-own-path")
+                    save(d, o["object"], o["set"], o["k"] + 1, step["path"], step["overwrite"])
+                    seen.add("resave-loaded-object")
+            else:
+                raise AssertionError(f"generator: step {step}")
+        # every file is decided at the end (also those that were never loaded in between)
+        for j in sorted(files):
+            load(d, j)
+
+    tags = [fmt, f"paths:{len(case['paths'])}", *sorted(seen)]
+    return {"nontrivial": bool(seen & {"load-after-overwrite"}), "tags": tags}
 
 
 # ------------------------------------------------------------------------------------------
@@ -642,17 +761,23 @@ PROPERTY = Property(
         "finite double range incl. subnormals, DBL_MAX (|x| <= 1e300 for xlsx/ods), decimals with leading zeros; standard-error / minimum / maximum / "
         "vary / non-negative columns each all-default, all-set or mixed; expressions as trees over + - * / // abs sqrt min max referencing "
         "other groups, or purely numeric literals; optionally values changed after construction so that the file holds outdated expression values; "
-        "csv with separators , ; tab |, with and without infinity replacement; 3 save-load cycles) and generated list / nested-dict "
+        "csv with separators , ; tab |, with and without infinity replacement; 3 save-load cycles), histories of 2-7 save / load / re-save steps "
+        "of 2-3 such sets (independent, reduced, edited) over 1-3 paths of one directory (overwriting existing files with smaller / larger / equally sized tables "
+        "and other save options, refused overwrites, repeated loads, re-saving a loaded object to another or to its own path) and generated list / nested-dict "
         "specifications (default blocks, automatic numbering, scientific-notation strings, option names in both spellings, expressions) rendered "
         "as python objects, YAML text (yml_str) and .yml files. A case is non-trivial if it has at least one of: numeric-looking label part, "
         "nested label, entirely empty column, expression, non-default flag (round trips) / default block, automatic numbering, "
-        "scientific-notation string, nested groups, expression (specifications); distinct = distinct case digest."
+        "scientific-notation string, nested groups, expression (specifications); a file that replaced an existing file was loaded (histories); "
+        "distinct = distinct case digest."
     ),
     subs=[
         Sub("csv", prop=prop_roundtrip, strategy=lambda: G.parameter_sets("csv"), budget={"quick": 1200, "thorough": 60000}),
         Sub("tsv", prop=prop_roundtrip, strategy=lambda: G.parameter_sets("tsv"), budget={"quick": 800, "thorough": 40000}),
         Sub("xlsx", prop=prop_roundtrip, strategy=lambda: G.parameter_sets("xlsx"), budget={"quick": 400, "thorough": 40000}),
         Sub("ods", prop=prop_roundtrip, strategy=lambda: G.parameter_sets("ods"), budget={"quick": 400, "thorough": 40000}),
+        Sub("history", prop=prop_history, strategy=lambda: G.histories(), budget={"quick": 320, "thorough": 30000},
+            doc="2-3 sets saved to / loaded from 1-3 paths of one directory in 2-7 steps (overwriting with smaller / larger / edited sets, refused "
+                "overwrites, second loads, re-saving loaded objects, also to their own path); every path must load as the set last saved to it"),
         Sub("spec", prop=prop_spec, strategy=lambda: G.specifications(False), budget={"quick": 2400, "thorough": 200000},
             doc="list / dict / yml specifications vs programmatic construction"),
         Sub("spec_sci", prop=prop_spec, strategy=lambda: G.specifications(True), budget={"quick": 600, "thorough": 40000},
@@ -673,6 +798,8 @@ PROPERTY = Property(
         "xlsx / ods: |x| <= 1e300 (the third-party Excel reader overflows at DBL_MAX); flat labels equal to a missing-value token of pandas "
         "('NA', 'null', 'none', 'NaN') are not generated as whole labels (only as parts of nested labels); expressions reference only parameters "
         "without expression or expression parameters declared earlier (independent of the evaluation-order finding of C12); integer YAML keys are not generated (keys are quoted)",
+        "histories: reference model 'a path holds the set last saved to it' (a refused save - FileExistsError without allow_overwrite, as documented - leaves the "
+        "file as it was); tolerance k*RTOL where k counts the save-load generations of the object that was saved; steps that do not apply are skipped",
         "Parameters.__eq__ is checked for agreement with an exact attribute-wise comparison (label set, NaN = NaN), not used as the oracle",
     ],
     selfcheck=selfcheck,
